@@ -338,26 +338,14 @@ theorem inside_filled (g : Grid) (pts : List P3) : insideB g (filled g pts) = tr
   intro v hv
   exact ((mem_filled g pts v).mp hv).2
 
-theorem countsAsWritten_eq (g : Grid) (pts : List P3) (cs : List (I3 × Nat))
-    (h : countsAsWritten g pts = some cs) : cs = counts g pts := by
-  unfold countsAsWritten at h
-  split at h
-  · exact (Option.some.inj h).symm
-  · split at h
-    · exact (Option.some.inj h).symm
-    · exact absurd h (by simp)
-
-/-- Without clipping (every voxel inside the grid) the code does not raise. -/
-theorem countsAsWritten_of_all_inside (g : Grid) (pts : List P3)
-    (h : ∀ p ∈ pts, inGrid g (voxIdx g p) = true) : countsAsWritten g pts = some (counts g pts) := by
-  unfold countsAsWritten
-  have : filled g pts = dedup (allIdx g pts) := by
-    unfold filled
-    apply List.filter_eq_self.mpr
-    intro v hv
-    obtain ⟨p, hp, rfl⟩ := List.mem_map.mp ((mem_dedup _ v).mp hv)
-    exact h p hp
-  rw [this, if_pos rfl]
+/-- Without clipping (every voxel inside the grid) nothing is dropped. -/
+theorem filled_of_all_inside (g : Grid) (pts : List P3)
+    (h : ∀ p ∈ pts, inGrid g (voxIdx g p) = true) : filled g pts = dedup (allIdx g pts) := by
+  unfold filled
+  apply List.filter_eq_self.mpr
+  intro v hv
+  obtain ⟨p, hp, rfl⟩ := List.mem_map.mp ((mem_dedup _ v).mp hv)
+  exact h p hp
 
 /-! ## tangents -/
 
@@ -425,6 +413,7 @@ theorem tangents_eq (t : List Row) (es : List (P3 × P3)) (h : edgePairs t = som
 theorem alpha_bounds (s1 s2 s3 : Rat) (h12 : s2 ≤ s1) (h23 : s3 ≤ s2) (h3 : 0 ≤ s3) (hpos : 0 < s1 + s2 + s3) :
     0 ≤ alpha s1 s2 s3 ∧ alpha s1 s2 s3 ≤ 1 := by
   unfold alpha
+  rw [if_pos hpos]
   constructor
   · exact div_nonneg (by linarith) (le_of_lt hpos)
   · exact (div_le_iff₀ hpos).mpr (by linarith)
@@ -432,7 +421,7 @@ theorem alpha_bounds (s1 s2 s3 : Rat) (h12 : s2 ≤ s1) (h23 : s3 ≤ s2) (h3 : 
 theorem alpha_eq_one_iff (s1 s2 s3 : Rat) (h23 : s3 ≤ s2) (h3 : 0 ≤ s3) (hpos : 0 < s1 + s2 + s3) :
     alpha s1 s2 s3 = 1 ↔ s2 = 0 ∧ s3 = 0 := by
   unfold alpha
-  rw [div_eq_one_iff_eq (ne_of_gt hpos)]
+  rw [if_pos hpos, div_eq_one_iff_eq (ne_of_gt hpos)]
   constructor
   · intro h; constructor <;> linarith
   · rintro ⟨rfl, rfl⟩; ring
@@ -440,12 +429,22 @@ theorem alpha_eq_one_iff (s1 s2 s3 : Rat) (h23 : s3 ≤ s2) (h3 : 0 ≤ s3) (hpo
 theorem alpha_eq_zero_iff (s1 s2 s3 : Rat) (hpos : 0 < s1 + s2 + s3) :
     alpha s1 s2 s3 = 0 ↔ s1 = s2 := by
   unfold alpha
-  rw [div_eq_zero_iff]
+  rw [if_pos hpos, div_eq_zero_iff]
   constructor
   · rintro (h | h)
     · linarith
     · linarith
   · intro h; left; linarith
+
+/-- Without any positivity assumption (the guarded division): alpha is `0` for an all-zero spectrum. -/
+theorem alpha_bounds_all (s1 s2 s3 : Rat) (h12 : s2 ≤ s1) (h23 : s3 ≤ s2) (h3 : 0 ≤ s3) :
+    0 ≤ alpha s1 s2 s3 ∧ alpha s1 s2 s3 ≤ 1 := by
+  by_cases hpos : 0 < s1 + s2 + s3
+  · exact alpha_bounds s1 s2 s3 h12 h23 h3 hpos
+  · unfold alpha; rw [if_neg hpos]; exact ⟨le_refl 0, by norm_num⟩
+
+theorem alpha_zero_sum (s1 s2 s3 : Rat) (h : ¬ 0 < s1 + s2 + s3) : alpha s1 s2 s3 = 0 := by
+  unfold alpha; rw [if_neg h]
 
 /-- Collinear neighbourhood: all centred points are multiples `tᵢ · d` of one direction.  Then the inertia matrix
 is `(Σ tᵢ²) d dᵀ`: it maps `d` to a multiple of `d` and kills everything orthogonal to `d`. -/
